@@ -557,6 +557,23 @@ class DocutilsRenderer(RendererProtocol):
                     )
 
     def render_hr(self, token: SyntaxTreeNode) -> None:
+        if not isinstance(
+            self.current_node, nodes.document | nodes.section
+        ) and not any(
+            not isinstance(child, nodes.title | nodes.subtitle)
+            for child in self.current_node.children
+        ):
+            # docutils only allows a transition to be the first element of a
+            # document or section (where it reports an error),
+            # its Transitions transform fails with an AssertionError for other parents
+            self.create_warning(
+                "A thematic break cannot be the first element of "
+                f"a {self.current_node.tagname}",
+                MystWarnings.NOT_SUPPORTED,
+                line=token_line(token, default=0),
+                append_to=self.current_node,
+            )
+            return
         node = nodes.transition()
         self.add_line_and_source_path(node, token)
         self.current_node.append(node)
